@@ -19,6 +19,11 @@ class SimDisk:
         self.open_handles = 0
         self.probes = {}
         self.wopened = set()     # (step id, path) pairs that truncated the path
+        self.mtime = {}          # path -> simulated st_mtime_ns
+        self.clock_ns = 1_700_000_000 * 10 ** 9
+        self.mtime_mode = "fine"  # 'fine': every modification advances the clock; 'coarse': only every 3rd; 'frozen': never
+        self.nmod = 0
+        self.ino = {}
 
     # -- fault plumbing
     def arm(self, step_id, fault):
@@ -75,6 +80,7 @@ class SimDisk:
                 self.probe("write_open_while_dump_in_flight")
             if base in ("w", "x") or path not in self.files:
                 self.files[path] = bytearray()        # 'w' truncates at open, like the real call
+                self.touch(path)
             self.wopened.add((self.step, path))
             self.state[path] = ("bot", "inflight", self.step)
             self.ev(path, "open-" + mode)
@@ -94,6 +100,55 @@ class SimDisk:
         if binary:
             return buf
         return io.TextIOWrapper(buf, encoding=encoding or "utf-8", errors=errors, newline=newline)
+
+    # -- metadata and namespace operations (reached through GlobalFS)
+    def touch(self, path):
+        """a modification of `path` happened; the simulated clock is a seam: file systems and kernels with coarse
+        time stamps give two successive writes the same mtime, which is legal"""
+        self.nmod += 1
+        if self.mtime_mode == "fine" or (self.mtime_mode == "coarse" and self.nmod % 3 == 0):
+            self.clock_ns += 1_000_000
+        self.mtime[path] = self.clock_ns
+
+    def stat(self, path):
+        if path not in self.files:
+            self.ev(path, "stat-enoent")
+            raise FileNotFoundError(errno.ENOENT, os.strerror(errno.ENOENT), path)
+        self.probe("stat_calls")
+        m = self.mtime.get(path, self.clock_ns)
+        ino = self.ino.setdefault(path, 1000 + len(self.ino))
+        size = len(self.files[path])
+        return os.stat_result((0o100644, ino, 99, 1, 0, 0, size, m // 10 ** 9, m // 10 ** 9, m // 10 ** 9,
+                               m / 1e9, m / 1e9, m / 1e9, m, m, m))
+
+    def rename(self, src, dst):
+        if src not in self.files:
+            raise FileNotFoundError(errno.ENOENT, os.strerror(errno.ENOENT), src)
+        self.files[dst] = self.files.pop(src)
+        self.mtime[dst] = self.mtime.pop(src, self.clock_ns)
+        st = self.state.pop(src, None)
+        if st is not None:
+            self.state[dst] = st
+        for (step, p) in list(self.wopened):
+            if p == src:
+                self.wopened.add((step, dst))
+        self.ev(src, "rename", dst)
+        self.probe("rename_calls")
+
+    def remove(self, path):
+        if path not in self.files:
+            raise FileNotFoundError(errno.ENOENT, os.strerror(errno.ENOENT), path)
+        del self.files[path]
+        self.mtime.pop(path, None)
+        self.state[path] = ("bot", "removed", self.step)
+        self.ev(path, "remove")
+
+    def put_raw(self, path, data):
+        self.files[path] = bytearray(data)
+        self.touch(path)
+        self.wopened.add((self.step, path))
+        self.state[path] = ("bot", "inflight", self.step)
+        self.ev(path, "put-raw", len(data))
 
     # -- model bookkeeping, called by the engine
     def seen_state(self, path):
@@ -118,8 +173,19 @@ class SimDisk:
 
 
 class SimRaw(io.RawIOBase):
+    FD_BASE = 1_000_000
+    _next_fd = [FD_BASE]
+
+    def fileno(self):
+        return self.fd
+
+    def isatty(self):
+        return False
+
     def __init__(self, disk, path, reading, writing, append=False):
         super().__init__()
+        SimRaw._next_fd[0] += 1
+        self.fd = SimRaw._next_fd[0]
         self.disk = disk
         self.path = path
         self.reading = reading
@@ -213,6 +279,7 @@ class SimRaw(io.RawIOBase):
             buf.extend(b"\x00" * (self.pos - len(buf)))
         buf[self.pos:self.pos + n] = b[:n]
         self.pos += n
+        self.disk.touch(self.path)
         self.disk.ev(self.path, "write", n)
         return n
 
@@ -228,3 +295,88 @@ class SimRaw(io.RawIOBase):
         finally:
             self.disk.open_handles -= 1
             super().close()
+
+
+# =========================================================================== process-wide virtualisation
+class GlobalFS:
+    """Installs the simulated device for the whole (forked, short-lived) process, not only as the module attribute
+    `open` of two library modules: builtins.open / io.open, os.stat / lstat, os.replace / rename / remove / unlink,
+    os.fsync / fdatasync and therefore pathlib.Path.open/stat/exists/replace/unlink/read_text/write_text all see the
+    same simulated files.  A changed library that stats a file, writes a temporary file and renames it over the
+    target, syncs, or opens through pathlib meets a faithful device instead of the real file system.
+    Simulated paths are relative names without a directory component; everything else is passed through."""
+
+    def __init__(self, disk):
+        self.disk = disk
+        self.real = {}
+
+    def is_sim(self, path):
+        try:
+            p = os.fspath(path)
+        except TypeError:
+            return False
+        if not isinstance(p, str) or not p:
+            return False
+        n = os.path.normpath(p)
+        return not os.path.isabs(n) and os.sep not in n and n not in (".", "..")
+
+    @staticmethod
+    def norm(path):
+        return os.path.normpath(os.fspath(path))
+
+    def install(self):
+        import builtins
+        d = self.disk
+        real_open, real_stat, real_lstat = builtins.open, os.stat, os.lstat
+        real_replace, real_rename, real_remove, real_unlink = os.replace, os.rename, os.remove, os.unlink
+        real_fsync, real_fdatasync = os.fsync, os.fdatasync
+        self.real = dict(open=real_open, stat=real_stat)
+        fs = self
+
+        def sim_open(file, mode="r", buffering=-1, encoding=None, errors=None, newline=None, closefd=True, opener=None):
+            if not isinstance(file, int) and fs.is_sim(file):
+                return d.open(fs.norm(file), mode, buffering, encoding, errors, newline)
+            return real_open(file, mode, buffering, encoding, errors, newline, closefd, opener)
+
+        def sim_stat(path, *a, **kw):
+            if not isinstance(path, int) and fs.is_sim(path):
+                return d.stat(fs.norm(path))
+            return real_stat(path, *a, **kw)
+
+        def sim_lstat(path, *a, **kw):
+            if not isinstance(path, int) and fs.is_sim(path):
+                return d.stat(fs.norm(path))
+            return real_lstat(path, *a, **kw)
+
+        def sim_replace(src, dst, *a, **kw):
+            s, t = fs.is_sim(src), fs.is_sim(dst)
+            if s and t:
+                return d.rename(fs.norm(src), fs.norm(dst))
+            if t and not s:
+                # a real temporary file (tempfile.mkstemp ...) moved over a simulated target
+                with real_open(src, "rb") as f:
+                    data = f.read()
+                real_remove(src)
+                return d.put_raw(fs.norm(dst), data)
+            if s and not t:
+                raise OSError(18, "simulated device: cross-device rename", os.fspath(src))
+            return real_replace(src, dst, *a, **kw)
+
+        def sim_remove(path, *a, **kw):
+            if fs.is_sim(path):
+                return d.remove(fs.norm(path))
+            return real_remove(path, *a, **kw)
+
+        def sim_fsync(fd):
+            if isinstance(fd, int) and fd >= SimRaw.FD_BASE:
+                d.ev("fd", "fsync", fd)
+                d.probe("fsync_calls")
+                return None
+            return real_fsync(fd)
+
+        builtins.open = sim_open
+        io.open = sim_open
+        os.stat, os.lstat = sim_stat, sim_lstat
+        os.replace, os.rename = sim_replace, sim_replace
+        os.remove, os.unlink = sim_remove, sim_remove
+        os.fsync, os.fdatasync = sim_fsync, sim_fsync
